@@ -163,7 +163,8 @@ func UniqueItems(path, in string, data interface{}) *errors.Validation {
 	for i := 0; i < val.Len(); i++ {
 		v := val.Index(i).Interface()
 		for _, u := range unique {
-			if reflect.DeepEqual(v, u) {
+			// numerically equal numbers of different Go types (e.g. 1 and 1.0) are the same item
+			if reflect.DeepEqual(v, u) || equalAfterConversion(v, u) {
 				return errors.DuplicateItems(path, in)
 			}
 		}
